@@ -47,3 +47,32 @@ package oracle
 //@   ensures[C18.oxg.irp]     res_GetIndexRecentParams_1 ==> r0.IndexRecentParams != nil && *r0.IndexRecentParams == res_GetIndexRecentParams_0
 //@   ensures[C18.oxg.irm]     res_GetIndexRecentMsg_1 ==> r0.IndexRecentMsg != nil && *r0.IndexRecentMsg == res_GetIndexRecentMsg_0
 //@   ensures[C18.oxg.nonces]  defined(res_GetAllNonces_0)
+
+// C18 (initialising from the exported document reproduces the module's state): every entry of every list of the document
+// is handed to the setter of its own collection, unchanged, and the parameters are set from the document.
+// (At a call site inside a range body the header's rangeindex is still the previous index.)
+//@ func InitGenesis
+//@   flag noframe
+//@   flag havoc=SetPrices,SetValidatorUpdateBlock,SetIndexRecentParams,SetIndexRecentMsg,SetRecentMsg,SetRecentParams,SetStakerList,SetStakerInfos,SetParams
+//@   before[C18.oig2.prices]  SetPrices requires arg_prices == genState.PricesList[rangeindex + 1]
+//@   before[C18.oig2.msgs]    SetRecentMsg requires arg_recentMsg == genState.RecentMsgList[rangeindex + 1]
+//@   before[C18.oig2.rparams] SetRecentParams requires arg_recentParams == genState.RecentParamsList[rangeindex + 1]
+//@   before[C18.oig2.lists]   SetStakerList requires arg_assetID == genState.StakerListAssets[rangeindex + 1].AssetId && arg_sl == genState.StakerListAssets[rangeindex + 1].StakerList
+//@   before[C18.oig2.infos]   SetStakerInfos requires arg_assetID == genState.StakerInfosAssets[rangeindex + 1].AssetId && arg_stakerInfos == genState.StakerInfosAssets[rangeindex + 1].StakerInfos
+//@   before[C18.oig2.params]  SetParams requires arg_params == genState.Params
+//@   ensures[C18.oig2.params] defined(res_SetParams_0)
+//@ loop #1
+//@   invariant true
+//@   step[C18.oig2.prices] defined(res_SetPrices_0)
+//@ loop #2
+//@   invariant true
+//@   step[C18.oig2.msgs] defined(res_SetRecentMsg_0)
+//@ loop #3
+//@   invariant true
+//@   step[C18.oig2.rparams] defined(res_SetRecentParams_0)
+//@ loop #4
+//@   invariant true
+//@   step[C18.oig2.lists] defined(res_SetStakerList_0)
+//@ loop #5
+//@   invariant true
+//@   step[C18.oig2.infos] defined(res_SetStakerInfos_0)
